@@ -109,7 +109,18 @@ func (g *gen) execInstr(ins ssa.Instruction, st *State, b *ssa.BasicBlock) {
 			_ = id
 		}
 		if x.Object() != nil && !x.IsAddr {
-			g.varAt[x.Object().Name()] = x.X
+			v := x.X
+			// an identifier used where an interface is expected is recorded after
+			// its implicit conversion: look through it
+			if mi, ok := v.(*ssa.MakeInterface); ok && !isInterface(x.Object().Type()) {
+				v = mi.X
+			}
+			if types.Identical(v.Type(), x.Object().Type()) || !isInterface(v.Type()) {
+				g.varAt[x.Object().Name()] = v
+			}
+		} else if x.Object() != nil && x.IsAddr {
+			// address-taken local: remember its cell; contracts read the cell's current content
+			g.varAt["&"+x.Object().Name()] = x.X
 		}
 	case *ssa.Alloc:
 		et := x.Type().(*types.Pointer).Elem()
